@@ -1,18 +1,23 @@
 import N0Verif.Proofs.Json
+import N0Verif.Proofs.JsonPairs
 /-!
 # C11 — JSON export and load round-trip every JSON-representable tree
 
 Only property statements live here; the model is `Model/Json.lean` (`toJson` = `n0dict_.to_json` /
 `n0list_.to_json` through `n0pretty`, **with fix patches C11-a, C11-c, C11-d, C11-f applied**;
-`jsonDecode` = `json.loads`), helper lemmas are in `Proofs/Json.lean`.
+`jsonDecode` = `json.loads`), helper lemmas are in `Proofs/Json.lean` (reader, general layout)
+and `Proofs/JsonPairs.lean` (pair layout, `pyEq`, `pairOrder`).
 
 Reading of the property.
 * "JSON-representable tree" = `wf t`: keys are unique inside every dict and every float leaf
   carries a JSON float lexeme (`fltOk`; Python's `repr` of a finite float is one).
 * "decodes to a value equal to the tree": `json.loads` builds plain `dict`/`list`, Python's `==`
-  ignores the class and the order of dict entries.  `erase` forgets the class tags; `pyEq` is
-  equality up to the order of dict entries.  Outside the pair layout the theorems give *exact*
-  equality with `erase …` (order included), which implies `pyEq`.
+  ignores the class and the order of dict entries.  `erase` forgets the class tags; `pyEq`
+  (`Proofs/JsonPairs.lean`, next to `wf`/`depth` of `Proofs/Json.lean`) is equality up to the order
+  of dict entries.  The theorems give the decoded value *exactly*: it is `erase …` of the tree whose
+  pair-layout records are listed in column order (`pairOrder o t`; the tree itself outside the pair
+  layout, and whenever every record already lists its keys in column order), which is `pyEq` to the
+  tree.
 * "skip_empty_arrays drops empty containers": `dropEmptyIf o t` = `prune t` when the option is
   on — containers that are empty, or become empty once their own empty containers are dropped,
   are removed from their parent (the root itself stays, as `{}` / `[]`).
@@ -20,36 +25,19 @@ Reading of the property.
 namespace N0.C11
 open N0 N0.Py N0.Json
 
-/-! ### equality of decoded values as Python sees it (dict order ignored) -/
-mutual
-def pyEq : Val → Val → Bool
-  | .none, .none => true
-  | .bool a, .bool b => a == b
-  | .int a, .int b => a == b
-  | .flt a, .flt b => a == b
-  | .str a, .str b => a == b
-  | .list _ xs, .list _ ys => pyEqL xs ys
-  | .dict _ a, .dict _ b => a.length == b.length && pyEqK a b
-  | _, _ => false
-def pyEqL : List Val → List Val → Bool
-  | [], [] => true
-  | x :: xs, y :: ys => pyEq x y && pyEqL xs ys
-  | _, _ => false
-def pyEqK : List (Str × Val) → List (Str × Val) → Bool
-  | [], _ => true
-  | (k, v) :: rest, b =>
-    (match Val.lookup k b with
-      | some v' => pyEq v v'
-      | Option.none => false) && pyEqK rest b
-end
-
-/-- **C11, full statement** (kept visible; proved below without the pair layout and up to
-nesting depth 111 — the remaining part is finding C11-e and the pair layout, which is covered
-differentially): for every JSON-representable tree and every option record the exported text
-is accepted by the reader and decodes to the tree (minus empty containers when
+/-- **C11, full statement** (kept visible; it is *false* because of finding C11-e, see
+`C11_roundtrip_stmt_false`; proved below for every option record up to nesting depth 111 —
+`C11_roundtrip_bounded`): for every JSON-representable tree and every option record the
+exported text is accepted by the reader and decodes to the tree (minus empty containers when
 `skip_empty_arrays` is on). -/
 def C11_roundtrip_stmt : Prop :=
   ∀ (o : Opts) (t : Val), wf t = true →
+    ∃ v, jsonDecode (toJson o t) = some v ∧ pyEq v (erase (dropEmptyIf o t)) = true
+
+/-- the full statement restricted to what the code can do (items nested deeper than 111 are
+printed as `{.......}`, finding C11-e): every layout, every option record -/
+def C11_roundtrip_bounded_stmt : Prop :=
+  ∀ (o : Opts) (t : Val), wf t = true → depth t ≤ 111 →
     ∃ v, jsonDecode (toJson o t) = some v ∧ pyEq v (erase (dropEmptyIf o t)) = true
 
 /-- **The reader decodes every JSON text of a value.**  Whatever white space stands between the
@@ -132,6 +120,57 @@ theorem C11_options_agree (o o' : Opts) (hp : o.pairsOn = false) (hp' : o'.pairs
   unfold dropEmptyIf
   rw [hs]
 
+/-! ### every layout, the pair layout included (stage 3) -/
+
+/-- **C11 for every option record, exact form** (`_partial`: depth ≤ 111, finding C11-e):
+the exported text decodes *exactly* to the tree whose pair-layout records are listed in column
+order (`pairOrder o t`: nothing else differs from `t`), with class tags forgotten and, under
+`skip_empty_arrays`, empty containers dropped.  Covers compress, every indent,
+`pairs_in_one_line` on and off, both values of `skip_empty_arrays`. -/
+theorem C11_roundtrip_ordered_partial (o : Opts) (t : Val) (hw : wf t = true) (hd : depth t ≤ 111) :
+    jsonDecode (toJson o t) = some (erase (dropEmptyIf o (pairOrder o t))) :=
+  jsonDecode_toJson o t hw hd
+
+/-- **C11, the full statement up to depth 111**: whatever the options, the exported text is
+accepted by `json.loads` and the decoded value equals the tree (minus the empty containers when
+`skip_empty_arrays` is on) as Python compares values. -/
+theorem C11_roundtrip_bounded : C11_roundtrip_bounded_stmt := by
+  intro o t hw hd
+  exact ⟨_, jsonDecode_toJson o t hw hd, pairOrder_pyEq o t hw⟩
+
+/-- no formatting option changes the decoded value, the pair layout included: two option records
+that agree on `skip_empty_arrays` both decode to values equal (as Python compares) to the same tree -/
+theorem C11_options_agree_all (o o' : Opts) (hs : o.skipEmpty = o'.skipEmpty) (t : Val)
+    (hw : wf t = true) (hd : depth t ≤ 111) :
+    ∃ v v', jsonDecode (toJson o t) = some v ∧ jsonDecode (toJson o' t) = some v' ∧
+      pyEq v (erase (dropEmptyIf o t)) = true ∧ pyEq v' (erase (dropEmptyIf o t)) = true := by
+  obtain ⟨v, h1, h2⟩ := C11_roundtrip_bounded o t hw hd
+  obtain ⟨v', h1', h2'⟩ := C11_roundtrip_bounded o' t hw hd
+  refine ⟨v, v', h1, h1', h2, ?_⟩
+  have : dropEmptyIf o t = dropEmptyIf o' t := by unfold dropEmptyIf; rw [hs]
+  rw [this]; exact h2'
+
+/-- exact equality (dict order included) in every layout when the records of the lists printed
+in the pair layout already list their keys in column order (first appearance) -/
+theorem C11_roundtrip_colorder_partial (o : Opts) (t : Val) (hw : wf t = true) (hd : depth t ≤ 111)
+    (hc : pairOrder o t = t) :
+    jsonDecode (toJson o t) = some (erase (dropEmptyIf o t)) := by
+  rw [jsonDecode_toJson o t hw hd, hc]
+
+/-- the column-ordered tree is the tree as Python compares values (also after
+`skip_empty_arrays`), and it is the tree itself when the pair layout is off -/
+theorem C11_pairOrder_pyEq (o : Opts) (t : Val) (hw : wf t = true) :
+    pyEq (erase (dropEmptyIf o (pairOrder o t))) (erase (dropEmptyIf o t)) = true ∧
+    (o.pairsOn = false → pairOrder o t = t) :=
+  ⟨pairOrder_pyEq o t hw, fun hp => pairOrder_off hp t⟩
+
+/-- one record of the pair layout, whatever the column widths: the padded text
+`{ "k": v   , "w": x }` is a JSON text (`Ren`) of the record listed in column order -/
+theorem C11_pair_record (c : Cls) (cols : List (Str × Nat)) (kvs : List (Str × Val))
+    (hs : ∀ p ∈ kvs, isPairScalar p.2 = true) (hw : wfK kvs = true) :
+    Ren (.dict c (colOrder cols kvs)) (['{'] ++ pairRecord kvs cols [] ++ [' ', '}']) :=
+  pairRecord_ren c cols kvs (fun p hp => scalar_ren (hs p hp) (wfK_mem kvs hw p hp))
+
 /-! ### finding C11-e: nesting deeper than 111 -/
 
 /-- `n` dicts around `v` -/
@@ -146,12 +185,20 @@ theorem C11_depth_cex :
     jsonDecode (toJson { compress := true } (nest 112 (.int 1))) = Option.none := by
   decide +kernel
 
+/-- the unrestricted statement is false: finding C11-e refutes it, so `depth t ≤ 111` in
+`C11_roundtrip_bounded_stmt` is the only difference and it is necessary -/
+theorem C11_roundtrip_stmt_false : ¬ C11_roundtrip_stmt := by
+  intro h
+  obtain ⟨v, hv, _⟩ := h { compress := true } (nest 112 (.int 1)) C11_depth_cex.1
+  rw [C11_depth_cex.2.2] at hv
+  cases hv
+
 /-- at the boundary the round-trip still holds (instance of `C11_roundtrip_partial`) -/
 theorem C11_depth_boundary :
     jsonDecode (toJson { compress := true } (nest 111 (.int 1))) = some (erase (nest 111 (.int 1))) :=
   C11_roundtrip_partial { compress := true } (by decide) _ (by decide +kernel) (by decide +kernel)
 
-/-! ### the pair layout (differential only): why the full statement uses `pyEq` -/
+/-! ### the pair layout: why the full statement uses `pyEq` -/
 
 def tPairs : Val :=
   .list .n0 [.dict .n0 [(['k'], .str ['1']), (['v'], .bool true)],
@@ -169,7 +216,98 @@ theorem C11_pairs_reorders :
              .dict .plain [(['k'], .int 3), (['v'], .flt ['1', '.', '5'])],
              .dict .plain [(['v'], .str ['"', '\\'])]], by decide +kernel, by decide +kernel⟩
 
+/-- `tPairs` through the theorems: the decoded value is the column-ordered tree -/
+example : jsonDecode (toJson {} tPairs)
+    = some (.list .plain [.dict .plain [(['k'], .str ['1']), (['v'], .bool true)],
+             .dict .plain [(['k'], .int 3), (['v'], .flt ['1', '.', '5'])],
+             .dict .plain [(['v'], .str ['"', '\\'])]]) := by
+  rw [C11_roundtrip_ordered_partial {} tPairs (by decide +kernel) (by decide +kernel)]
+  decide +kernel
+
+/-! ### the constructor side: `n0dict(text)` / `n0list(text)` -/
+
+/-- **C11, load**: `json.loads(text, object_pairs_hook=n0dict)` accepts exactly the texts
+`json.loads(text)` accepts, fails with the same error otherwise, and builds the same value with
+every object an n0dict (arrays stay plain lists): same keys, same order, same leaves -/
+theorem C11_load_hook (s : Str) : jsonLoadsHookE s = (jsonDecodeE s).map tagN0 :=
+  jsonLoadsHookE_eq s
+
+/-- **`n0dict(text)` = `json.loads(text.strip())`** with nested objects as n0dicts, for every
+non-empty text whose first non-blank character is `{` (also the error: a text that is not JSON
+raises `JSONDecodeError` in both) -/
+theorem C11_load (s r : Str) (hne : s ≠ []) (hs : stripWs s = '{' :: r) :
+    n0dictOfText s = (jsonDecodeE (stripWs s)).map tagN0 := by
+  rw [hs]; exact n0dictOfText_json hne hs
+
+/-- **`n0list(text)` = `json.loads(text.strip())`**, the list itself an n0list, nested objects
+n0dicts, nested arrays plain lists -/
+theorem C11_load_list (s r : Str) (hne : s ≠ []) (hs : stripWs s = '[' :: r) :
+    n0listOfText s = (jsonDecodeE (stripWs s)).map tagTop := by
+  rw [hs]; exact n0listOfText_json hne hs
+
+/-- the other branches: an empty text gives the empty container; a text that starts with
+anything else (`<` = XML for `n0dict` aside) is a `TypeError` -/
+theorem C11_load_dispatch (s : Str) :
+    (s = [] → n0dictOfText s = .ok (.dict .n0 []) ∧ n0listOfText s = .ok (.list .n0 [])) ∧
+    (s ≠ [] → (∀ r, stripWs s ≠ '{' :: r) → (∀ r, stripWs s ≠ '<' :: r) → n0dictOfText s = .error .TypeError) ∧
+    (s ≠ [] → (∀ r, stripWs s ≠ '[' :: r) → n0listOfText s = .error .TypeError) :=
+  ctor_dispatch s
+
+/-- **export, then construct**: `n0dict(x.to_json(…))` / `n0list(x.to_json(…))` rebuild the
+(column-ordered) tree for every option record (`_partial`: depth ≤ 111), with the class tags the
+constructors give -/
+theorem C11_export_construct_partial (o : Opts) (c : Cls) :
+    (∀ kvs, wf (.dict c kvs) = true → depth (.dict c kvs) ≤ 111 →
+      n0dictOfText (toJson o (.dict c kvs)) = .ok (tagN0 (erase (dropEmptyIf o (pairOrder o (.dict c kvs)))))) ∧
+    (∀ xs, wf (.list c xs) = true → depth (.list c xs) ≤ 111 →
+      n0listOfText (toJson o (.list c xs)) = .ok (tagTop (erase (dropEmptyIf o (pairOrder o (.list c xs)))))) :=
+  ⟨fun kvs hw hd => n0dictOfText_toJson o c kvs hw hd, fun xs hw hd => n0listOfText_toJson o c xs hw hd⟩
+
+-- non-vacuity: blanks that `strip()` removes but JSON does not accept, a repeated key, nested
+-- objects and arrays; an invalid text; the dispatch
+example : n0dictOfText (Char.ofNat 12 :: "{\"a\": [1, {\"b\": null}], \"c\": {}, \"a\": [[]]}\n".toList)
+    = .ok (.dict .n0 [(['a'], .list .plain [.list .plain []]), (['c'], .dict .n0 [])]) := by decide +kernel
+example : jsonDecodeE (Char.ofNat 12 :: "{}".toList) = .error .ValueError := by decide +kernel
+example : stripWs (Char.ofNat 12 :: "{\"a\": 1} ".toList) = "{\"a\": 1}".toList := by decide +kernel
+example : n0dictOfText "{\"a\": 1,}".toList = .error .ValueError ∧ n0dictOfText "[1]".toList = .error .TypeError
+    ∧ n0listOfText " [1, {\"k\": [2]}] ".toList = .ok (.list .n0 [.int 1, .dict .n0 [(['k'], .list .plain [.int 2])]])
+    ∧ n0listOfText "{}".toList = .error .TypeError ∧ n0dictOfText [' '] = .error .TypeError := by decide +kernel
+example : n0dictOfText (toJson {} (.dict .plain [(['r'], tPairs)]))
+    = .ok (.dict .n0 [(['r'], .list .plain [.dict .n0 [(['k'], .str ['1']), (['v'], .bool true)],
+             .dict .n0 [(['k'], .int 3), (['v'], .flt ['1', '.', '5'])],
+             .dict .n0 [(['v'], .str ['"', '\\'])]])]) := by
+  rw [(C11_export_construct_partial {} .plain).1 _ (by decide +kernel) (by decide +kernel)]
+  decide +kernel
+
 /-! ### non-vacuity -/
+
+/-- a tree with two pair-layout lists (one nested in a dict of a general list), an empty record,
+an absent first column, a record in the other order, escapes in keys and values -/
+def tMixed : Val :=
+  .dict .n0 [(['r'], .list .n0 [.dict .n0 [(['b', '"'], .int (-7))],
+                                .dict .plain [],
+                                .dict .n0 [(['b', '"'], .str ['\n', '"']), (['a'], .flt ['2', '.', '5'])],
+                                .dict .plain [(['a'], .bool false)]]),
+             (['g'], .list .plain [.int 1, .dict .n0 [(['q'], .list .n0 [.dict .n0 [(['x'], .str [])]])], .list .n0 []])]
+
+example : wf tMixed = true ∧ depth tMixed ≤ 111 := by decide +kernel
+example : Opts.pairsOn { indent := 2, skipEmpty := true } = true := by decide
+-- the pair layout really is used, and re-lists nothing here (first-appearance order = record order)
+example : pairOrder { indent := 2, skipEmpty := true } tMixed = tMixed := by decide +kernel
+example : pairOrder {} tPairs ≠ tPairs := by decide +kernel
+example : jsonDecode (toJson { indent := 2, skipEmpty := true } tMixed)
+    = some (.dict .plain [(['r'], .list .plain [.dict .plain [(['b', '"'], .int (-7))],
+                                .dict .plain [(['b', '"'], .str ['\n', '"']), (['a'], .flt ['2', '.', '5'])],
+                                .dict .plain [(['a'], .bool false)]]),
+             (['g'], .list .plain [.int 1, .dict .plain [(['q'], .list .plain [.dict .plain [(['x'], .str [])]])]])]) := by
+  rw [C11_roundtrip_colorder_partial _ tMixed (by decide +kernel) (by decide +kernel) (by decide +kernel)]
+  decide +kernel
+-- the text of the instance contains a padded record with an absent first column
+example : pretty { indent := 2 } 0 (.list .n0 [.dict .n0 [(['k'], .int 1), (['v'], .int 22)], .dict .n0 [(['v'], .int 3)]])
+    = "[\n  { \"k\": 1, \"v\": 22 },\n  {         \"v\": 3  }\n]".toList := by decide +kernel
+example : ∃ o t, wf t = true ∧ depth t ≤ 111 ∧ o.pairsOn = true ∧ pairOrder o t ≠ t :=
+  ⟨{}, tPairs, by decide +kernel, by decide +kernel, by decide, by decide +kernel⟩
+example : isPairScalar (.str ['a']) = true ∧ isPairScalar .none = false ∧ isPairScalar (.list .n0 []) = false := by decide
 
 def tDemo : Val :=
   .dict .n0 [(['a', '"'], .list .n0 [.str ['\\', '\n', '"', 'é', Char.ofNat 1], .int (-12), .flt ['1', 'e', '-', '0', '7'],
